@@ -192,12 +192,12 @@ var (
 // 正则
 var (
 	IncludeZhRe = regexp.MustCompile("[\u4e00-\u9fa5]")         // 中文
-	PhoneRe     = regexp.MustCompile(`^1[3,4,5,6,7,8,9]\d{9}$`) // 手机号
+	PhoneRe     = regexp.MustCompile(`^1[3-9]\d{9}$`)         // 手机号
 	Ipv4Re      = regexp.MustCompile(`^((25[0-5]|2[0-4]\d|[01]?\d\d?)\.){3}(25[0-5]|2[0-4]\d|[01]?\d\d?)$`)
 	EmailRe     = regexp.MustCompile(`^\w+([-+.]\w+)*@\w+([-.]\w+)*\.\w+([-.]\w+)*$`)
 	IdCardRe    = regexp.MustCompile(`(^\d{15}$)|(^\d{18}$)|(^\d{17}(\d|X|x)$)`)
 	IntRe       = regexp.MustCompile(`^\d+$`)
-	FloatRe     = regexp.MustCompile(`^\d+.\d+$`)
+	FloatRe     = regexp.MustCompile(`^\d+\.\d+$`)
 
 	// Deprecated
 	YearRe = regexp.MustCompile(`^\d{4}$`)
